@@ -20,330 +20,309 @@ META = {
 M = 'copyright'
 
 
-def _writes(stmts, bufname):
-    out = []
-    for s in stmts:
-        if isinstance(s, ast.Expr) and isinstance(s.value, ast.Call) and norm(s.value.func) == bufname + '.write' and len(s.value.args) == 1:
-            a = s.value.args[0]
-            if isinstance(a, ast.Constant) and isinstance(a.value, str):
-                out.append(('lit', a.value))
-            elif isinstance(a, ast.Call) and norm(a.func) == 're.escape' and len(a.args) == 1:
-                out.append(('escape', norm(a.args[0])))
-            else:
-                out.append(('other', norm(a)))
-        elif isinstance(s, ast.Raise):
-            out.append(('raise', norm(s.exc.func) if isinstance(s.exc, ast.Call) else norm(s.exc)))
-        elif isinstance(s, (ast.Assign, ast.AugAssign, ast.Expr, ast.Pass)):
-            continue
-        else:
-            out.append(('stmt', norm(s)[:40]))
+def loop_carried(fnode):
+    """names that carry a value from one iteration of a loop of fnode to the next (assigned in the loop and read in it
+    before being assigned, or read after a conditional assignment)"""
+    out = set()
+    for lp in [n for n in ast.walk(fnode) if isinstance(n, (ast.For, ast.While))]:
+        assigned = {n.id for n in ast.walk(lp) if isinstance(n, ast.Name) and isinstance(n.ctx, ast.Store)}
+        targets = {n.id for n in ast.walk(lp.target) if isinstance(n, ast.Name)} if isinstance(lp, ast.For) else set()
+        seen_def = set(targets)
+        carried = set()
+
+        def visit(stmts, defs):
+            for st in stmts:
+                uses = [n.id for n in ast.walk(st) if isinstance(n, ast.Name) and isinstance(n.ctx, ast.Load)]
+                if isinstance(st, (ast.If, ast.For, ast.While, ast.Try, ast.With)):
+                    hdr = [getattr(st, 'test', None), getattr(st, 'iter', None)]
+                    for h in hdr:
+                        if h is not None:
+                            for n in ast.walk(h):
+                                if isinstance(n, ast.Name) and isinstance(n.ctx, ast.Load) and n.id in assigned and n.id not in defs:
+                                    carried.add(n.id)
+                    branches = [getattr(st, 'body', []), getattr(st, 'orelse', [])] + [h.body for h in getattr(st, 'handlers', [])]
+                    results = []
+                    for b in branches:
+                        d2 = set(defs)
+                        if isinstance(st, ast.For):
+                            d2 |= {n.id for n in ast.walk(st.target) if isinstance(n, ast.Name)}
+                        visit(b, d2)
+                        results.append(d2)
+                    defs &= set.intersection(*results) if results else defs
+                    defs |= set.intersection(*results) if results else set()
+                    continue
+                for u in uses:
+                    if u in assigned and u not in defs:
+                        carried.add(u)
+                for n in ast.walk(st):
+                    if isinstance(n, ast.Name) and isinstance(n.ctx, ast.Store):
+                        defs.add(n.id)
+        if isinstance(lp, ast.While):
+            for n in ast.walk(lp.test):
+                if isinstance(n, ast.Name) and isinstance(n.ctx, ast.Load) and n.id in assigned:
+                    carried.add(n.id)
+        visit(lp.body, seen_def)
+        out |= carried
     return out
 
 
-def r1_fragment_table(rep, src):
+def r1_translation(rep, src):
+    """globs_to_re interpreted on a basis of glob lists: every glob of up to three characters over representatives of
+    the character classes the translation distinguishes ('*', '?', backslash, ordinary characters incl. regex
+    metacharacters, '/', newline, a non-ASCII letter), and pairs of globs.  The pattern text it produces is turned
+    into an automaton under the flags it passes to re.compile and the match method the consumer uses; that language
+    must equal the specified one ('*' = any text, '?' = any one character, backslash-escapes = the literal).  The
+    character loop carries no state besides its cursor and the output buffer, so longer globs add nothing new."""
+    from .. import heap as H
+    import itertools
     f = src.func(M + ':globs_to_re')
     rep.saw_func(f)
-    where = f.where
-    # the outer loop over globs and the inner per-character loop
-    outer = [s for s in f.node.body if isinstance(s, ast.For)]
-    if len(outer) != 1:
-        raise AnalysisError('%s: expected one loop over the globs' % f.site)
-    outer = outer[0]
-    gvar = None
-    if isinstance(outer.target, ast.Tuple) and norm(outer.iter).startswith('enumerate('):
-        gvar = norm(outer.target.elts[1])
-    elif isinstance(outer.target, ast.Name):
-        gvar = outer.target.id
-    inner = [s for s in outer.body if isinstance(s, (ast.While, ast.For))]
-    if len(inner) != 1 or gvar is None:
-        raise AnalysisError('%s: per-character loop not found' % f.site)
-    inner = inner[0]
-    bufname = None
-    for s in f.node.body:
-        if isinstance(s, ast.Assign) and isinstance(s.value, ast.Call) and norm(s.value.func) in ('io.StringIO', 'StringIO'):
-            bufname = norm(s.targets[0])
-    if bufname is None:
-        raise AnalysisError('%s: output buffer not found' % f.site)
-    # cursor idiom: c = glob[i]; i += 1   (or for c in glob)
-    cvar, ivar = None, None
-    if isinstance(inner, ast.For):
-        cvar = norm(inner.target)
-    reads = []
-    for n in walk_no_nested(inner):
-        if isinstance(n, ast.Subscript) and norm(n.value) == gvar:
-            reads.append(n)
-    for n in reads:
-        p = n._parent
-        ok = isinstance(p, ast.Assign) and p.value is n and isinstance(p.targets[0], ast.Name) and isinstance(n.slice, ast.Name)
-        if ok:
-            # must be followed by the cursor increment
-            blk = p._parent.body if p in getattr(p._parent, 'body', []) else p._parent.orelse
-            nxt = blk[blk.index(p) + 1] if blk.index(p) + 1 < len(blk) else None
-            ok = isinstance(nxt, ast.AugAssign) and norm(nxt.target) == norm(n.slice) and isinstance(nxt.op, ast.Add) and norm(nxt.value) == '1'
-            if ok:
-                cvar = cvar or p.targets[0].id
-                ivar = norm(n.slice)
-        if not ok:
-            rep.fail('C16.R1', f.site, 'character-wise translation',
-                     'the translation looks at the raw pattern text `%s` outside the read-next-character step: a raw neighbour cannot tell an '
-                     'escaped character from an unescaped one, so the result is not the token-wise glob semantics' % norm(n),
-                     where='%s:%d' % (f.module.relpath, n.lineno))
-    if cvar is None:
-        raise AnalysisError('%s: current-character variable not found' % f.site)
-    # flags of the final compile
-    comp = [c for c in ast.walk(f.node) if isinstance(c, ast.Call) and norm(c.func) == 're.compile']
-    if len(comp) != 1:
-        raise AnalysisError('%s: expected one re.compile' % f.site)
-    try:
-        flags = f.module.fold(comp[0].args[1]) if len(comp[0].args) > 1 else 0
-    except Unfoldable:
-        raise AnalysisError('%s: compile flags do not fold' % f.site)
-    # dispatch chain on the current character
-    chain = [s for s in inner.body if isinstance(s, ast.If)]
-    if len(chain) != 1:
-        raise AnalysisError('%s: expected one if/elif chain per character' % f.site)
-    node = chain[0]
-    table = {}
-    escape_node = None
-    while True:
-        t = node.test
-        keys = None
-        if isinstance(t, ast.Compare) and len(t.ops) == 1 and norm(t.left) == cvar:
-            if isinstance(t.ops[0], ast.Eq) and isinstance(t.comparators[0], ast.Constant):
-                keys = [t.comparators[0].value]
-            elif isinstance(t.ops[0], ast.In):
-                try:
-                    keys = list(ast.literal_eval(t.comparators[0]))
-                except ValueError:
-                    keys = None
-        if keys is None:
-            extra = [n for n in ast.walk(t) if isinstance(n, ast.Name) and n.id not in (cvar,)]
-            raise AnalysisError('%s: branch condition `%s` depends on state other than the current character (%s): the rule only '
-                                'decides character-wise translations' % (f.site, norm(t), ', '.join(sorted({n.id for n in extra}))))
-        for k in keys:
-            table[k] = node
-            if k == '\\':
-                escape_node = node
-        if len(node.orelse) == 1 and isinstance(node.orelse[0], ast.If):
-            node = node.orelse[0]
-        else:
-            table[None] = node.orelse
-            break
+    mod = src.mod(M)
+    mt = src.func(M + ':FilesParagraph.matches')
+    rep.saw_func(mt)
+    modes = {c.func.attr for c in ast.walk(mt.node) if isinstance(c, ast.Call) and isinstance(c.func, ast.Attribute) and c.func.attr in ('match', 'fullmatch', 'search')}
+    if len(modes) != 1:
+        raise AnalysisError('%s: the match call on the pattern is not unique (%s)' % (mt.site, sorted(modes)))
+    mode = modes.pop()
     alpha = rx.alphabet('str')
-    anyall = rx.regex_lang('(?s:.*)', 0, 'fullmatch', alpha=alpha)
-    anyone = rx.regex_lang('(?s:.)', 0, 'fullmatch', alpha=alpha)
+    carried = loop_carried(f.node)
+    cursor_like = {n for n in carried if n in ('i', 'n', 'idx', 'pos', 'chars', 'it', 'buf', 'out', 'parts', 'pieces', 'first', 'sep')}
+    depth = 3 if carried <= cursor_like else 4
+    reps_other = ['a', '.', '[', '/', '\n', '\u00e9', '|', ')', '$']
+    units = ['*', '?', '\\'] + reps_other[:3]
+    compiled = {}
 
-    def frag_lang(ws):
-        pat = ''
-        for kind, v in ws:
-            if kind != 'lit':
-                return None
-            pat += v
+    def run(globs):
+        heap = H.Heap(mod, hooks={'re.escape': lambda it, args, kw: re.escape(args[0]),
+                                  're.compile': lambda it, args, kw: ('compiled', args[0], args[1] if len(args) > 1 else kw.get('flags', 0))})
+        heap.symbolic_strings = True
+        it = H.Interp(heap)
         try:
-            return rx.regex_lang(pat, flags, 'fullmatch', alpha=alpha)
-        except AnalysisError:
-            return None
-    for ch, want, name in (('*', anyall, 'any run of characters, "/" and newline included'), ('?', anyone, 'exactly one character, newline included')):
-        if ch not in table:
-            rep.fail('C16.R1', f.site, "wildcard '%s'" % ch, "'%s' is not translated as a wildcard" % ch, where=where)
+            r = it.call(H.Closure(f.node, {}, None, None), [heap.new_list(list(globs))])
+        except H.Raised as x:
+            return ('raise', x.exc)
+        return r
+
+    def spec(glob):
+        """specified language of one glob as a regex over the units, or 'error'"""
+        out, i = [], 0
+        while i < len(glob):
+            c = glob[i]
+            i += 1
+            if c == '*':
+                out.append('(?s:.*)')
+            elif c == '?':
+                out.append('(?s:.)')
+            elif c == '\\':
+                if i >= len(glob):
+                    return 'error'
+                c2 = glob[i]
+                i += 1
+                if c2 not in '\\?*':
+                    return 'error'
+                out.append(re.escape(c2))
+            else:
+                out.append(re.escape(c))
+        return ''.join(out)
+    basis = [[''.join(t)] for k in range(0, depth + 1) for t in itertools.product(units, repeat=k)]
+    basis += [[c] for c in reps_other[3:]] + [['a' + c + 'b'] for c in reps_other[3:]]
+    basis += [['a', 'b*'], ['a*', 'b'], ['a?', '', 'b'], ['*.c', 'd/*', '\\*'], []]
+    problems = []
+    n_ok = 0
+    for globs in basis:
+        specs = [spec(g) for g in globs]
+        r = run(globs)
+        if 'error' in specs:
+            if r != ('raise', 'MachineReadableFormatError'):
+                problems.append('the illegal glob %r is not reported as a format error (MachineReadableFormatError): %r' % (globs[specs.index('error')], r if not isinstance(r, tuple) or r[0] != 'compiled' else 'pattern ' + r[1]))
+            else:
+                n_ok += 1
             continue
-        ws = _writes(table[ch].body, bufname)
-        L = frag_lang(ws)
-        if L is None:
-            rep.fail('C16.R1', f.site, "wildcard '%s'" % ch, "'%s' is translated to %r" % (ch, ws), where=where)
+        if not (isinstance(r, tuple) and r and r[0] == 'compiled'):
+            problems.append('globs %r: %r instead of a compiled pattern' % (globs, r))
             continue
-        w = L.equiv_witness(want)
-        if w is None:
-            rep.ok('C16.R1', f.site, "wildcard '%s'" % ch, '%r denotes %s under flags %s' % (''.join(v for _, v in ws), name, re.RegexFlag(flags)))
+        _, pat, flags = r
+        flags = flags if isinstance(flags, int) else 0
+        try:
+            got = rx.regex_lang(pat, flags, mode, alpha=alpha)
+        except AnalysisError as e:
+            problems.append('globs %r give the pattern %r, which the analyser cannot read: %s' % (globs, pat, e))
+            continue
+        want = rx.regex_lang('(?:%s)' % '|'.join('(?:%s)' % s_ for s_ in specs) if specs else '(?!)x' if False else (('(?:%s)' % '|'.join('(?:%s)' % s_ for s_ in specs)) if specs else '[^\\s\\S]'),
+                             0, 'fullmatch', alpha=alpha)
+        nonempty = rx.regex_lang('(?s:.+)', 0, 'fullmatch', alpha=alpha)      # file names are not empty
+        w = got.intersect(nonempty).equiv_witness(want.intersect(nonempty))
+        if w is not None:
+            problems.append('Files: %s compiles to %r (flags %s, used with %s): the file name %r is %s' % (
+                ' '.join(globs) or '(empty)', pat, flags, mode, w[1], 'matched although no glob denotes it' if w[0] == 'left-only' else 'not matched although a glob denotes it'))
         else:
-            rep.fail('C16.R1', f.site, "wildcard '%s'" % ch, "'%s' is translated to %r which, under the compile flags %s, %s %r; it must match %s"
-                     % (ch, ''.join(v for _, v in ws), re.RegexFlag(flags), 'also matches' if w[0] == 'left-only' else 'does not match', w[1], name),
-                     detail={'witness': w[1]}, where=where)
-    # default branch: literal
-    dflt = _writes(table.get(None, []), bufname)
-    if dflt == [('escape', cvar)]:
-        rep.ok('C16.R1', f.site, 'ordinary characters', 're.escape(%s)' % cvar)
+            n_ok += 1
+        compiled[tuple(globs)] = pat
+    rep.analysed['paths'] += len(basis)
+    what = 'glob translation and anchoring: L(pattern, %s) = specified language' % mode
+    if problems:
+        for pr in problems[:3]:
+            rep.fail('C16.R1', f.site, what, pr, where=f.where)
     else:
-        rep.fail('C16.R1', f.site, 'ordinary characters', 'an ordinary character is translated by %r instead of its escaped literal' % (dflt,), where=where)
-    # escape branch
-    if escape_node is None:
-        rep.fail('C16.R1', f.site, 'backslash escapes', 'backslash is not handled', where=where)
-    else:
-        body = escape_node.body
-        has_next = [s for s in body if isinstance(s, ast.If) and norm(s.test) in ('%s < n' % ivar, 'n > %s' % ivar, '%s < len(%s)' % (ivar, gvar))]
-        okend = bool(has_next) and _writes(has_next[0].orelse, bufname) == [('raise', 'MachineReadableFormatError')]
-        if okend:
-            rep.ok('C16.R1', f.site, 'trailing backslash', 'MachineReadableFormatError')
-        else:
-            rep.fail('C16.R1', f.site, 'trailing backslash', 'a pattern ending in a single backslash is not reported as a format error', where=where)
-        sel = [s for s in body if isinstance(s, ast.If) and isinstance(s.test, ast.Compare) and isinstance(s.test.ops[0], ast.In)
-               and norm(s.test.left) in (cvar,)]
-        okesc = False
-        if sel:
-            try:
-                allowed = set(ast.literal_eval(sel[0].test.comparators[0]))
-            except ValueError:
-                allowed = None
-            if allowed == {'\\', '?', '*'} and _writes(sel[0].body, bufname) in ([('escape', cvar)],) \
-                    and _writes(sel[0].orelse, bufname) == [('raise', 'MachineReadableFormatError')]:
-                okesc = True
-                # re.escape of the three characters denotes the literal
-                for ch in allowed:
-                    L = rx.regex_lang(re.escape(ch), flags, 'fullmatch', alpha=alpha)
-                    if L.equiv_witness(rx.regex_lang('[%s]' % re.escape(ch), 0, 'fullmatch', alpha=alpha)) is not None:
-                        okesc = False
-        if okesc:
-            rep.ok('C16.R1', f.site, 'escapes', r'\\ \? \* denote the literal, any other escape raises MachineReadableFormatError')
-        else:
-            rep.fail('C16.R1', f.site, 'escapes', 'the escapable set is not exactly {\\, ?, *} with literal translation, or other escapes are not rejected '
-                     'with MachineReadableFormatError', where=where)
-    return dict(func=f, flags=flags, bufname=bufname, outer=outer)
+        rep.ok('C16.R1', f.site, what, '%d glob lists (all unit sequences up to length %d + pairs), loop-carried state: %s' % (n_ok, depth, sorted(carried) or 'none'))
+    if not carried <= cursor_like:
+        rep.note('C16.R1: the character loop of globs_to_re carries %s between iterations; basis extended to length %d' % (sorted(carried - cursor_like), depth))
 
 
-def r2_anchoring(rep, src, info):
-    f = info['func']
-    bufname = info['bufname']
-    outer = info['outer']
-    joiner = None
-    for s in outer.body:
-        if isinstance(s, ast.If) and any(norm(s.test) == t for t in ('i != 0', 'i > 0', 'i')):
-            ws = _writes(s.body, bufname)
-            if len(ws) == 1 and ws[0][0] == 'lit':
-                joiner = ws[0][1]
-    if joiner is None:
-        raise AnalysisError('%s: separator between alternatives not found' % f.site)
-    pre = ''.join(v for k, v in _writes([s for s in f.node.body if s.lineno < outer.lineno], bufname) if k == 'lit')
-    post = ''.join(v for k, v in _writes([s for s in f.node.body if s.lineno > outer.lineno], bufname) if k == 'lit')
-    per_pre = ''.join(v for k, v in _writes([s for s in outer.body if not isinstance(s, (ast.If, ast.While, ast.For))], bufname) if k == 'lit')
-    skeleton = pre + 'x' + joiner + per_pre + 'y' + post
-    # consumers of the compiled pattern
-    m = src.mod(M)
-    consumers = []
-    for fn in m.funcs.values():
-        pats = {norm(s.targets[0]) for s in ast.walk(fn.node) if isinstance(s, ast.Assign) and isinstance(s.value, ast.Call)
-                and norm(s.value.func).endswith('files_pattern')}
-        for c in ast.walk(fn.node):
-            if isinstance(c, ast.Call) and isinstance(c.func, ast.Attribute) and c.func.attr in ('match', 'fullmatch', 'search', 'findall', 'finditer') \
-                    and (norm(c.func.value) in pats or norm(c.func.value).endswith('files_pattern()')):
-                consumers.append((fn, c))
-    if not consumers:
-        raise AnalysisError('no consumer of files_pattern() found in copyright.py')
-    alpha = rx.alphabet('str')
-    want = rx.regex_lang('x|y', 0, 'fullmatch', alpha=alpha)
-    xy = rx.regex_lang('[xy](?s:.*)', 0, 'fullmatch', alpha=alpha)
-    for fn, c in consumers:
-        rep.saw_func(fn)
-        mode = c.func.attr
-        if mode not in ('match', 'fullmatch', 'search'):
-            rep.fail('C16.R2', fn.site, norm(c)[:40], 'the pattern is used with %s' % mode, where=fn.where)
+def r2_matches(rep, src):
+    """FilesParagraph.matches interpreted: no pattern → False; otherwise the outcome of the match call"""
+    from .. import heap as H
+    mt = src.func(M + ':FilesParagraph.matches')
+    mod = src.mod(M)
+    for pat_present, hit, want in ((False, None, False), (True, True, True), (True, False, False)):
+        asked = []
+
+        def fm(it, args, kw, hit=hit):
+            asked.append(args[1:])
+            return it.h.alloc('Match', {}) if hit else None
+        heap = H.Heap(mod, hooks={'.files_pattern': lambda it, args, kw, p=pat_present: it.h.alloc('Pattern', {}, name='@pat') if p else None,
+                                  '.fullmatch': fm, '.match': fm, '.search': fm})
+        heap.symbolic_strings = True
+        me = heap.alloc('FilesParagraph', {}, name='@files')
+        what = 'matches(): pattern %s%s' % ('present' if pat_present else 'absent', '' if hit is None else (', name %s' % ('matches' if hit else 'does not match')))
+        try:
+            r = H.Interp(heap).call(H.Closure(mt.node, {}, me, mt.cls), ['some/file'])
+        except H.Raised as x:
+            rep.fail('C16.R2', mt.site, what, 'raises %s' % x.exc, where=mt.where)
             continue
-        got = rx.regex_lang(skeleton, info['flags'], mode, alpha=alpha)
-        w = got.equiv_witness(want)
-        what = 'whole-name matching: %s on %r' % (mode, skeleton)
-        if w is None:
-            rep.ok('C16.R2', fn.site, what, 'accepts exactly the names matched entirely by one alternative')
+        if r is want and (not pat_present or asked == [['some/file']]):
+            rep.ok('C16.R2', mt.site, what, repr(r))
         else:
-            rep.fail('C16.R2', fn.site, what, 'with alternatives joined as %r the call .%s() %s the name %r (x, y stand for two patterns): a pattern '
-                     'must match the whole file name' % (skeleton, mode, 'accepts' if w[0] == 'left-only' else 'rejects', w[1]),
-                     detail={'witness': w[1]}, where='%s:%d' % (fn.module.relpath, c.lineno))
-    _ = xy
+            rep.fail('C16.R2', mt.site, what, 'returns %r (pattern asked with %r); the answer must be exactly whether the pattern matches the given name' % (r, asked), where=mt.where)
 
 
 def r3_cache(rep, src):
+    """files_pattern interpreted over histories: the pattern is recomputed exactly when the Files text changed, and a
+    failing translation leaves no half-updated cache (the next call fails again instead of using a stale pattern)"""
+    from .. import heap as H
     f = src.func(M + ':FilesParagraph.files_pattern')
     rep.saw_func(f)
-    g = cfg.CFG(f.node)
-    stores = [n for n in g.stmts() if n.kind == 'stmt' and isinstance(n.ast, (ast.Assign, ast.AugAssign)) and
-              any(isinstance(t, ast.Attribute) and norm(t.value) == 'self' and 'cache' in t.attr
-                  for tt in (n.ast.targets if isinstance(n.ast, ast.Assign) else [n.ast.target]) for t in ast.walk(tt))]
-    calls = [g.node_for(c) for c in ast.walk(f.node) if isinstance(c, ast.Call) and norm(c.func) == 'globs_to_re']
-    if not stores or not calls:
-        raise AnalysisError('%s: cache store / globs_to_re call not found' % f.site)
-    bad = [(s, c) for s in stores for c in calls if s.id != c.id and g.exists_path(s.id, c.id)]
+    mod = src.mod(M)
+    state = {'text': 'a b', 'calls': [], 'fail': False}
+
+    def g2r(it, args, kw):
+        state['calls'].append(state['text'])
+        if state['fail']:
+            raise H.Raised('MachineReadableFormatError', it.h.version, 0)
+        return ('pattern-for', state['text'])
+    heap = H.Heap(mod, hooks={'globs_to_re': g2r})
+    heap.symbolic_strings = True
+    heap.hooks['.__getitem__'] = lambda it, args, kw: state['text']
+    me = heap.alloc('FilesParagraph', {}, name='@files')
+    heap.objs[me.name]['files'] = ('files-of', None)
+    heap.objs[me.name]['_default_re'] = ('pattern-for', '')
+    it = H.Interp(heap)
+    # the cache attributes as the constructor initialises them (only its plain stores into self are interpreted)
+    init = src.func(M + ':FilesParagraph.__init__')
+    for st in ast.walk(init.node):
+        if isinstance(st, ast.Assign) and len(st.targets) == 1 and isinstance(st.targets[0], ast.Attribute) and norm(st.targets[0].value) == 'self' \
+                and not any(isinstance(c, ast.Call) for c in ast.walk(st.value)):
+            try:
+                it.exec(st, {'self': me}, 'FilesParagraph')
+            except (AnalysisError, H.Raised):
+                pass
+
+    class SelfItems:
+        pass
+    # self['files'] and self.files are answered from the scenario
+    orig_ev = it.ev
+
+    def ev(e, env, cls):
+        if isinstance(e, ast.Subscript) and norm(e.value) == 'self' and isinstance(e.slice, ast.Constant) and str(e.slice.value).lower() == 'files':
+            return state['text']
+        if isinstance(e, ast.Attribute) and norm(e) == 'self.files':
+            return ('files-of', state['text'])
+        return orig_ev(e, env, cls)
+    it.ev = ev
+
+    def call():
+        try:
+            return it.call(H.Closure(f.node, {}, me, f.cls), [])
+        except H.Raised as x:
+            return ('raise', x.exc)
+    script = [('a b', False, ('pattern-for', 'a b'), 1), ('a b', False, ('pattern-for', 'a b'), 1), ('c', False, ('pattern-for', 'c'), 2),
+              ('d\\', True, ('raise', 'MachineReadableFormatError'), 3), ('d\\', True, ('raise', 'MachineReadableFormatError'), 4),
+              ('c', False, ('pattern-for', 'c'), None), ('e', False, ('pattern-for', 'e'), None)]
+    bad = None
+    for text, fail, want, ncalls in script:
+        state['text'], state['fail'] = text, fail
+        r = call()
+        if r != want and bad is None:
+            bad = 'with Files = %r %sfiles_pattern() gives %r instead of %r (history of translated texts: %r): the cached pattern does not follow the Files text' % (
+                text, '(an illegal glob) ' if fail else '', r, want, state['calls'])
+        if ncalls is not None and len(state['calls']) != ncalls and bad is None:
+            bad = 'with Files = %r the glob translation ran %d times in total instead of %d: %s' % (
+                text, len(state['calls']), ncalls, 'a failed translation left its key in the cache, later queries silently use a stale pattern'
+                if len(state['calls']) < ncalls else 'the pattern is not cached')
     if bad:
-        rep.fail('C16.R3', f.site, 'cache update is atomic',
-                 'the cache is written (`%s`) before globs_to_re has succeeded: when a pattern is illegal the error is raised once and later '
-                 'queries silently use the stale pattern' % norm(bad[0][0].ast)[:60], where='%s:%d' % (f.module.relpath, bad[0][0].lineno))
+        rep.fail('C16.R3', f.site, 'the cached pattern follows the Files text', bad, where=f.where)
     else:
-        rep.ok('C16.R3', f.site, 'cache update is atomic', 'no cache store precedes the globs_to_re call')
-    # key: compared with and stored as the current Files text
-    key = [s for s in f.node.body if isinstance(s, ast.Assign) and norm(s.value) in ("self['files']", "self['Files']", 'self["files"]', 'self["Files"]')]
-    tests = [n for n in g.nodes if n.kind == 'test' and isinstance(n.ast, ast.Compare) and isinstance(n.ast.ops[0], ast.NotEq)]
-    ok = False
-    if key and tests:
-        kv = norm(key[0].targets[0])
-        t = tests[0]
-        sides = {norm(t.ast.left), norm(t.ast.comparators[0])}
-        if kv in sides and any('cache' in x for x in sides):
-            # stored key is the same variable
-            for s in stores:
-                v = s.ast.value if isinstance(s.ast, ast.Assign) else None
-                if isinstance(v, ast.Tuple) and norm(v.elts[0]) == kv and 'globs_to_re' in norm(v.elts[1]):
-                    ok = True
-                elif v is not None and norm(v) == kv:
-                    ok = True
-            recompute_on_true = any(lab is True and (d in [c.id for c in calls] or any(g.exists_path(d, c.id) for c in calls)) for d, lab in g.succ[t.id])
-            ok = ok and recompute_on_true
-    if ok:
-        rep.ok('C16.R3', f.site, 'cache keyed by the Files text', 'recomputed when the stored key differs from self[\'files\']; that text becomes the key')
-    else:
-        rep.fail('C16.R3', f.site, 'cache keyed by the Files text', 'the cached pattern is not invalidated by comparing/storing the current Files text', where=f.where)
-    # the globs handed to globs_to_re are the parsed Files list
-    if any(norm(c.args[0]) == 'self.files' for c in ast.walk(f.node) if isinstance(c, ast.Call) and norm(c.func) == 'globs_to_re'):
-        rep.ok('C16.R3', f.site, 'pattern built from the Files list', 'globs_to_re(self.files)', nontrivial=False)
-    else:
-        rep.fail('C16.R3', f.site, 'pattern built from the Files list', 'globs_to_re is not applied to self.files', where=f.where)
+        rep.ok('C16.R3', f.site, 'the cached pattern follows the Files text', '%d-step history: recomputed iff the text changed, a failing translation is retried' % len(script))
 
 
 def r4_last_match(rep, src):
+    """find_files_paragraph / all_files_paragraphs interpreted: the answer is the last Files paragraph (document order)
+    whose matches() is true, None when there is none -- for every truth assignment of three paragraphs -- and it is
+    recomputed from the current paragraphs on every call"""
+    from .. import heap as H
+    import itertools
+    from . import common
     f = src.func(M + ':Copyright.find_files_paragraph')
-    rep.saw_func(f)
-    loops = [s for s in f.node.body if isinstance(s, ast.For)]
-    if len(loops) != 1:
-        raise AnalysisError('%s: expected one loop' % f.site)
-    lp = loops[0]
-    fname = f.params()[1]
-    pv = norm(lp.target)
-    ok_iter = norm(lp.iter) in ('self.all_files_paragraphs()',)
-    esc = [x for x in walk_no_nested(lp) if isinstance(x, (ast.Break, ast.Return))]
-    asg = [s for s in walk_no_nested(lp) if isinstance(s, ast.Assign)]
-    init = [s for s in f.node.body if isinstance(s, ast.Assign) and s.lineno < lp.lineno]
-    ret = [s for s in f.node.body if isinstance(s, ast.Return) and s.lineno > lp.lineno]
-    cond_ok = len(lp.body) == 1 and isinstance(lp.body[0], ast.If) and norm(lp.body[0].test) == '%s.matches(%s)' % (pv, fname) and not lp.body[0].orelse
-    if ok_iter and not esc and cond_ok and len(asg) == 1 and norm(asg[0].value) == pv and init and norm(init[-1].value) == 'None' \
-            and norm(init[-1].targets[0]) == norm(asg[0].targets[0]) and ret and norm(ret[0].value) == norm(asg[0].targets[0]):
-        rep.ok('C16.R4', f.site, 'last match wins', 'result overwritten on every match, no early exit, None when nothing matches')
-    else:
-        why = 'the loop leaves at the first match' if esc else 'the result is not the last matching Files paragraph in document order'
-        rep.fail('C16.R4', f.site, 'last match wins', why, where=f.where)
     a = src.func(M + ':Copyright.all_files_paragraphs')
-    t = norm(a.node.body[-1])
-    if 'for p in self.__paragraphs' in t and 'isinstance(p, FilesParagraph)' in t and 'sorted' not in t and 'reversed' not in t:
-        rep.ok('C16.R4', a.site, 'document order', 'filter over the paragraph list', nontrivial=False)
+    rep.saw_func(f)
+    rep.saw_func(a)
+    common.check_no_hidden_state(rep, src, 'C16.R4', [M + ':Copyright.find_files_paragraph', M + ':Copyright.all_files_paragraphs', M + ':FilesParagraph.matches',
+                                                     M + ':globs_to_re'],
+                                 'an answer remembered per file name is not invalidated when the Files field of a paragraph is edited, so a later lookup returns '
+                                 'the stale paragraph')
+    mod = src.mod(M)
+    n = 0
+    bad = None
+    for truth in itertools.product((False, True), repeat=3):
+        heap = H.Heap(mod, hooks={'.matches': lambda it, args, kw: it.h.objs[args[0].name]['hit']})
+        heap.symbolic_strings = True
+        hdr = heap.alloc('Header', {}, name='@header')
+        fps = [heap.alloc('FilesParagraph', {'hit': t}, name='@files%d' % (i + 1)) for i, t in enumerate(truth)]
+        lic = heap.alloc('LicenseParagraph', {}, name='@license')
+        paras = heap.new_list([fps[0], lic, fps[1], fps[2]])
+        me = heap.alloc('Copyright', {'_Copyright__paragraphs': paras, '_Copyright__header': hdr}, name='@copyright')
+        it = H.Interp(heap)
+        try:
+            r = it.call(H.Closure(f.node, {}, me, f.cls), ['some/file'])
+        except H.Raised as x:
+            r = 'raises ' + x.exc
+        want = None
+        for p_, t in zip(fps, truth):
+            if t:
+                want = p_
+        n += 1
+        if r != want and bad is None:
+            bad = 'with Files paragraphs matching = %s the answer is %r; the last matching paragraph in document order is %r' % (list(truth), r, want)
+    if bad:
+        rep.fail('C16.R4', f.site, 'last match wins', bad, where=f.where)
     else:
-        rep.fail('C16.R4', a.site, 'document order', 'Files paragraphs are not enumerated in document order', where=a.where)
-    mt = src.func(M + ':FilesParagraph.matches')
-    rets = [r for r in ast.walk(mt.node) if isinstance(r, ast.Return)]
-    if any('is not None' in norm(r.value) or norm(r.value).startswith('bool(') for r in rets if r.value is not None):
-        rep.ok('C16.R4', mt.site, 'matches returns the match outcome', norm(rets[-1].value), nontrivial=False)
-    else:
-        rep.fail('C16.R4', mt.site, 'matches returns the match outcome', 'matches() does not return whether the pattern matched', where=mt.where)
+        rep.ok('C16.R4', f.site, 'last match wins', 'all %d truth assignments of three Files paragraphs (with a License paragraph in between)' % n)
 
 
 def check(src, rep, tier):
-    rep.explanation = ('C16: (R1) the if/elif chain on the current character inside globs_to_re is read as a table; the fragments for "*" and '
-                       '"?" are compiled to automata under the flags of the final re.compile and compared with Σ* and Σ; escapes and ordinary '
-                       'characters must go through re.escape, illegal/trailing escapes must raise MachineReadableFormatError; any raw look at '
-                       'neighbouring pattern characters is rejected (escaped vs unescaped cannot be told apart).  (R2) the assembled skeleton '
-                       'x<join>y<suffix> under the consumer\'s call mode must accept exactly {x, y}.  (R3) no cache store precedes the '
-                       'translation call; key compared/stored is the Files text.  (R4) loop shape of find_files_paragraph.')
+    rep.explanation = ('C16: globs_to_re, FilesParagraph.matches / files_pattern and Copyright.find_files_paragraph are interpreted by the abstract '
+                       'interpreter of sa.heap (nothing of the repository is executed): (R1) on every glob of up to three units over class '
+                       'representatives and on glob pairs, the pattern text produced is converted to an automaton under the flags and the match '
+                       'method actually used, and compared for language equality with the specification of the glob syntax; illegal escapes must raise '
+                       'the format error; the character loop carries no extra state.  (R2) matches() returns exactly the match outcome.  (R3) the '
+                       'pattern cache over a 7-step history (unchanged text, changed text, failing translation, recovery).  (R4) last matching '
+                       'paragraph for all truth assignments, no memo in the lookup path.')
     rep.not_decided = ['re.escape itself', 'the Files field splitting (C17)']
-    rep.need('C16.R1', 5)
-    rep.need('C16.R2', 1)
-    rep.need('C16.R3', 3)
-    rep.need('C16.R4', 3)
-    info = rep.guard('C16.R1', r1_fragment_table, src)
-    if info is not None:
-        rep.guard('C16.R2', r2_anchoring, src, info)
+    rep.need('C16.R1', 1)
+    rep.need('C16.R2', 3)
+    rep.need('C16.R3', 1)
+    rep.need('C16.R4', 5)
+    rep.guard('C16.R1', r1_translation, src)
+    rep.guard('C16.R2', r2_matches, src)
     rep.guard('C16.R3', r3_cache, src)
     rep.guard('C16.R4', r4_last_match, src)
